@@ -57,7 +57,7 @@ import (
 
 // a unit is abandoned (and reported as a cap) after this many hangs/slow deaths or fast deaths
 const maxSlowIncidentsPerUnit = 3
-const maxFastIncidentsPerUnit = 200
+const maxFastIncidentsPerUnit = 60
 const maxClassesPerExtractor = 32
 
 // ring keeps the first and the last 96 KiB of a worker's stderr (the crashing goroutine is printed first).
